@@ -195,12 +195,12 @@ def actionsJustified (t : LockTable) : Bool :=
 
 /-! ## the combined check -/
 
-/-- The members known to be racy on the current tree (see the file header; `DataChannel.disable_interrupt`
-was one of them until the `fix:` commit that takes the channel mutex in `SetDisableInterrupt`). -/
-def knownRacy : List Name :=
-  [n% "ICU.vector_low", n% "ICU.vector_high", n% "ICU.vector_context_switch"]
+/-- The members known to be racy on the current tree: none any more.  (`DataChannel.disable_interrupt` was one
+until `SetDisableInterrupt` took the channel mutex, the three ICU vector tables until they got locked accessors;
+both repaired in /repo — the pinned snapshot and its four races are in `Proofs/C19Pinned.lean`.) -/
+def knownRacy : List Name := []
 
-/-- The ICU vector tables (the part of `knownRacy` that stays after `SetDisableInterrupt` is repaired). -/
+/-- The ICU vector tables (what stayed racy after `SetDisableInterrupt` alone was repaired; used by `Proofs/C19Pinned.lean`). -/
 def icuVectors : List Name := [n% "ICU.vector_low", n% "ICU.vector_high", n% "ICU.vector_context_switch"]
 
 def tableChecks (t : LockTable) (excluded : List Name) : Bool :=
